@@ -58,6 +58,12 @@ def cases(tier, seed):
             out.append({"id": f"segment-n{n}-cuts{''.join(map(str, cuts))}-trail2x3x2-axes1,3", "kind": "segment", "n": n, "cuts": list(cuts), "trail": [2, 3, 2], "axes": [1, 3]})
     for k, m in ((1, 2), (2, 2), (2, 3), (3, 2), (1, 5), (5, 1)):
         out.append({"id": f"equiv-{k}x{m}", "kind": "equiv", "k": k, "m": m})
+    # call sequences: every ORDERED PAIR of distinct segmentations with the same number of rows and
+    # the same number of segments, evaluated one after the other in one process (a result must not
+    # depend on which segmentation was aggregated before)
+    for n in range(3, nmax + 1):
+        for k in range(2, n):
+            out.append({"id": f"segseq-n{n}-k{k}", "kind": "segseq", "n": n, "k": k})
     return out
 
 
@@ -207,5 +213,31 @@ def _run_equiv(case):
     return outcome(status="violation" if viols else "ok", violations=viols, states=cnt, transitions=cnt, traces=cnt, digest=digest(dig))
 
 
+def _run_segseq(case):
+    """All ordered pairs (s1, s2) of distinct contiguous segmentations of n rows into k segments:
+    aggregate under s1, then under s2, in this process; both results against the absolute reference."""
+    import jax.numpy as jnp
+    import jax
+    from lcm.discrete_problem import _calculate_emax_extreme_value_shocks as emax
+
+    n, k = case["n"], case["k"]
+    segs = [np.concatenate([[0], np.cumsum(c)]).astype(np.int32) for c in itertools.product([0, 1], repeat=n - 1) if sum(c) == k - 1]
+    A = _arrays((n,))
+    viols, cnt, dig = [], 0, []
+    for i, j in itertools.permutations(range(len(segs)), 2):
+        for scale in (1.0, 0.1):
+            for pos, ids in (("first", segs[i]), ("second", segs[j])):
+                seginfo = {"segment_ids": jnp.asarray(ids), "num_segments": k}
+                f = jax.vmap(lambda v: emax(v, choice_axes=None, choice_segments=seginfo, params={"additive_utility_shock": {"scale": scale}}))
+                got = np.asarray(f(jnp.asarray(A)))
+                dig.append(got)
+                for s in range(k):
+                    rows = np.where(ids == s)[0]
+                    ref, mx = _ref_lse(A[:, rows], scale, (1,))
+                    _judge(got[:, s], ref, mx, len(rows), scale, "segment-sequence", viols, A, f"sequence {segs[i].tolist()} then {segs[j].tolist()}: {pos} call, segment_ids={ids.tolist()} segment={s}")
+                    cnt += len(A)
+    return outcome(status="violation" if viols else "ok", violations=viols, states=cnt, transitions=cnt, traces=cnt, digest=digest(dig))
+
+
 def run_case(case):
-    return {"axis": _run_axis, "segment": _run_segment, "equiv": _run_equiv}[case["kind"]](case)
+    return {"axis": _run_axis, "segment": _run_segment, "equiv": _run_equiv, "segseq": _run_segseq}[case["kind"]](case)
